@@ -61,7 +61,7 @@ func (c CurlyRouter) matchesRouteByPathTokens(routeTokens, requestTokens []strin
 	if len(routeTokens) < len(requestTokens) {
 		// proceed in matching only if last routeToken is wildcard
 		count := len(routeTokens)
-		if count == 0 || !strings.HasSuffix(routeTokens[count-1], "*}") {
+		if count == 0 || !isWildcardToken(routeTokens[count-1]) {
 			return false, 0, 0
 		}
 		// proceed
@@ -109,6 +109,13 @@ func (c CurlyRouter) matchesRouteByPathTokens(routeTokens, requestTokens []strin
 		}
 	}
 	return true, paramCount, staticCount
+}
+
+// isWildcardToken tells whether the route token is a wildcard parameter such as {rest:*}
+// (and not a regular expression that happens to end with a star, e.g. {id:x[0-9]*}).
+func isWildcardToken(routeToken string) bool {
+	colon := strings.Index(routeToken, ":")
+	return strings.HasPrefix(routeToken, "{") && colon != -1 && routeToken[colon+1:] == "*}"
 }
 
 // regularMatchesPathToken tests whether the regular expression part of routeToken matches the requestToken or all remaining tokens
